@@ -54,17 +54,17 @@ func c05GenHandlerConc(r *verifh.Rng) []verifh.Section {
 		n := r.Pick(1, 2, 3, r.Range(1, 8))
 		g := r.Pick(n, n+1, 2*n+1, r.Range(2, 12))
 		secs = append(secs, verifh.Section{Cfg: fmt.Sprintf("kind=maxconns mode=conc n=%d", n), Ops: []string{
-			fmt.Sprintf("run g=%d iters=%d pan=%d rs=%d", g, r.Range(10, verifh.Scale(40, 120)), r.Pick(0, 10, 40), r.Intn(1<<30)),
-			fmt.Sprintf("run g=%d iters=%d pan=%d rs=%d", g, r.Range(5, 30), 100, r.Intn(1<<30)),
+			fmt.Sprintf("run g=%d iters=%d pan=%d exits=%s rs=%d", g, r.Range(10, verifh.Scale(40, 120)), r.Pick(0, 10, 40), r.PickS("s", "seg", "e"), r.Intn(1<<30)),
+			fmt.Sprintf("run g=%d iters=%d pan=%d exits=%s rs=%d", g, r.Range(5, 30), 100, r.PickS("seg", "g", "se"), r.Intn(1<<30)),
 		}})
 	}
 	return secs
 }
 
 type c05Req struct {
-	gate    chan bool     // value: panic?
+	gate    chan byte     // value: how the inner handler ends (0 return, 's' panic string, 'e' panic error, 'g' Goexit)
 	entered chan struct{} // closed when the inner handler runs
-	done    chan int      // status code (or -1 after a panic) when ServeHTTP returned
+	done    chan int      // status code (-1 after a panic, -2 after runtime.Goexit) when ServeHTTP returned
 }
 
 type c05Key struct{}
@@ -74,15 +74,16 @@ func c05StartMaxConns(cfg verifh.Cfg) (func(op []string) string, func()) {
 	var hist *c5.Hist
 	var ga *c5.Gauge
 	var panPct int
+	exits := "s"
 	inner := http.HandlerFunc(func(w http.ResponseWriter, r *http.Request) {
 		switch v := r.Context().Value(c05Key{}).(type) {
 		case *c05Req: // sequential mode
 			close(v.entered)
-			if <-v.gate {
-				panic("c05: handler panics")
+			if k := <-v.gate; k != 0 {
+				c5.Abort(k)
 			}
 		case [2]int: // concurrent mode: gid, request id
-			c5.Inside(hist, ga, verifh.NewRng(uint64(v[1])*7919+1), v[0], v[1], panPct)
+			c5.InsideK(hist, ga, verifh.NewRng(uint64(v[1])*7919+1), v[0], v[1], panPct, exits)
 		}
 	})
 	h := MaxConnsHandler(n)(inner)
@@ -100,8 +101,12 @@ func c05StartMaxConns(cfg verifh.Cfg) (func(op []string) string, func()) {
 	}
 	var running []*c05Req
 	launch := func() (*c05Req, string) {
-		rq := &c05Req{gate: make(chan bool), entered: make(chan struct{}), done: make(chan int, 1)}
-		go func() { rq.done <- serve(rq) }()
+		rq := &c05Req{gate: make(chan byte), entered: make(chan struct{}), done: make(chan int, 1)}
+		go func() {
+			code := -2 // the goroutine ends without ServeHTTP having returned: runtime.Goexit
+			defer func() { rq.done <- code }()
+			code = serve(rq)
+		}()
 		select {
 		case <-rq.entered:
 			return rq, "ok"
@@ -114,13 +119,16 @@ func c05StartMaxConns(cfg verifh.Cfg) (func(op []string) string, func()) {
 			return nil, "stuck"
 		}
 	}
-	end := func(rq *c05Req, pan bool) string {
+	end := func(rq *c05Req, pan byte) string {
 		rq.gate <- pan
-		code := <-rq.done // ServeHTTP returned (or panicked through): the deferred Return has run
-		if pan && code != -1 {
+		code := <-rq.done // ServeHTTP returned (or panicked / Goexit-ed through): the deferred Return has run
+		if pan == 'g' && code != -2 {
+			return fmt.Sprintf("goexit-swallowed-%d", code)
+		}
+		if pan != 0 && pan != 'g' && code != -1 {
 			return fmt.Sprintf("panic-swallowed-%d", code)
 		}
-		if !pan && code != http.StatusOK {
+		if pan == 0 && code != http.StatusOK {
 			return fmt.Sprintf("status-%d", code)
 		}
 		return "ok"
@@ -137,7 +145,7 @@ func c05StartMaxConns(cfg verifh.Cfg) (func(op []string) string, func()) {
 			k++
 		}
 		for _, rq := range rs {
-			end(rq, false)
+			end(rq, 0)
 		}
 		return k
 	}
@@ -155,13 +163,14 @@ func c05StartMaxConns(cfg verifh.Cfg) (func(op []string) string, func()) {
 			}
 			rq := running[0]
 			running = running[1:]
-			return end(rq, len(op) > 1 && op[1] == "panic")
+			return end(rq, c5.FinishKind(op))
 		case "probe":
 			return fmt.Sprintf("free=%d", probe())
 		case "run":
 			p := c5.Params(op)
 			g, iters := p.Int("g", 2), p.Int("iters", 10)
 			panPct = p.Int("pan", 0)
+			exits = p.Str("exits", "s")
 			hist = c5.NewHist(g)
 			ga = &c5.Gauge{}
 			var wg sync.WaitGroup
@@ -172,10 +181,21 @@ func c05StartMaxConns(cfg verifh.Cfg) (func(op []string) string, func()) {
 					r := c5.Rng(p, gid)
 					for i := 0; i < iters; i++ {
 						id := gid*100000 + i
-						switch code := serve([2]int{gid, id}); code {
+						// every request on its own goroutine (as net/http does): Goexit inside the handler ends only it
+						code := -2
+						func() {
+							var rw sync.WaitGroup
+							rw.Add(1)
+							go func() {
+								defer rw.Done()
+								code = serve([2]int{gid, id})
+							}()
+							rw.Wait()
+						}()
+						switch code {
 						case http.StatusServiceUnavailable:
 							hist.Rec(gid, "x"+strconv.Itoa(id))
-						case http.StatusOK, -1:
+						case http.StatusOK, -1, -2:
 						default:
 							hist.Rec(gid, fmt.Sprintf("status-%d", code))
 						}
@@ -192,7 +212,7 @@ func c05StartMaxConns(cfg verifh.Cfg) (func(op []string) string, func()) {
 	}
 	return step, func() {
 		for _, rq := range running {
-			end(rq, false)
+			end(rq, 0)
 		}
 	}
 }
